@@ -500,3 +500,65 @@ Proof.
     + intros results [lines|]; [|discriminate]. unfold sast_apply_file.
       destruct (sast_apply sub fc mkdiff v dry results lines); discriminate.
 Qed.
+
+(** ** the code's SAST targeting (start lines) against the property's words (lines that carry a finding) *)
+Lemma sast_targets_carry rs n : sast_targets rs n = true -> carries rs n = true.
+Proof.
+  unfold sast_targets, carries, start_lines. intros H. apply mem_N_In in H. apply in_flat_map in H.
+  destruct H as [r [Hr Hn]]. apply in_map_iff in Hn. destruct Hn as [l [Hl Hin]].
+  apply existsb_exists. exists r. split; [exact Hr|]. apply existsb_exists. exists l. split; [exact Hin|].
+  rewrite Hl, N.eqb_refl. apply orb_true_r.
+Qed.
+
+Lemma admissible_from_meaning (sub : str -> str) cand : forall lines upd k,
+  admissible_from sub cand k lines upd = true <->
+  (List.length upd = List.length lines /\
+   forall i l u, nth_error lines i = Some l -> nth_error upd i = Some u ->
+                 u = l \/ (cand (k + N.of_nat i)%N = true /\ u = sub l)).
+Proof.
+  induction lines as [|l ls IH]; intros [|u us] k; cbn [admissible_from].
+  - split; [intros _; split; [reflexivity|]; intros [|i] ? ? H; discriminate|reflexivity].
+  - split; [discriminate|]. intros [H _]. discriminate.
+  - split; [discriminate|]. intros [H _]. discriminate.
+  - rewrite andb_true_iff, IH. split.
+    + intros [Hh [Hlen Ht]]. split; [cbn; now rewrite Hlen|].
+      intros [|i] l0 u0 Hl Hu; cbn in Hl, Hu.
+      * inversion Hl; inversion Hu; subst. rewrite N.add_0_r.
+        apply orb_true_iff in Hh. destruct Hh as [Hh|Hh].
+        -- left. now apply str_eqb_eq.
+        -- apply andb_true_iff in Hh. destruct Hh as [Hc He]. right. split; [exact Hc|]. now apply str_eqb_eq.
+      * replace (k + N.of_nat (S i))%N with (k + 1 + N.of_nat i)%N by lia. now apply (Ht i).
+    + intros [Hlen Ht]. split; [|split].
+      * destruct (Ht 0%nat l u eq_refl eq_refl) as [->|[Hc ->]].
+        -- rewrite str_eqb_refl. reflexivity.
+        -- rewrite N.add_0_r in Hc. rewrite Hc, str_eqb_refl. apply orb_true_r.
+      * cbn in Hlen. now inversion Hlen.
+      * intros i l0 u0 Hl Hu. replace (k + 1 + N.of_nat i)%N with (k + N.of_nat (S i))%N by lia. now apply (Ht (S i)).
+Qed.
+
+Lemma admissible_from_mono (sub : str -> str) (c1 c2 : N -> bool) :
+  (forall n, c1 n = true -> c2 n = true) ->
+  forall lines upd k, admissible_from sub c1 k lines upd = true -> admissible_from sub c2 k lines upd = true.
+Proof.
+  intros Hc. induction lines as [|l ls IH]; intros [|u us] k H; cbn [admissible_from] in *; try congruence.
+  apply andb_true_iff in H. destruct H as [Hh Ht]. apply andb_true_iff. split; [|now apply IH].
+  apply orb_true_iff in Hh. apply orb_true_iff. destruct Hh as [Hh|Hh]; [now left|right].
+  apply andb_true_iff in Hh. destruct Hh as [H1 H2]. now rewrite (Hc _ H1), H2.
+Qed.
+
+Lemma upd_from_admissible (sub : str -> str) t : forall lines k,
+  admissible_from sub t k lines (upd_from sub t k lines) = true.
+Proof.
+  unfold upd_from. induction lines as [|l ls IH]; intros k; [reflexivity|].
+  cbn [number_from map fst snd admissible_from]. rewrite IH, andb_true_r.
+  destruct (t k); [now rewrite str_eqb_refl, orb_true_r|now rewrite str_eqb_refl].
+Qed.
+
+(** the code's reading satisfies the text's: whatever the results, the SAST pipeline's output is an admissible update
+    w.r.t. the lines that carry a finding *)
+Lemma sast_text_reading (sub : str -> str) rs lines :
+  admissible sub (carries rs) lines (spec_updated sub (sast_targets rs) lines) = true.
+Proof.
+  unfold admissible. apply (admissible_from_mono sub (sast_targets rs)); [apply sast_targets_carry|].
+  rewrite spec_updated_from. apply upd_from_admissible.
+Qed.
